@@ -454,6 +454,9 @@ func c12(tier string, args []string) int {
 	if shard == 0 {
 		c12RealSearches(run)
 	}
+	if shard == 1%n {
+		c12TerminalRoots(run)
+	}
 	c12PositionSweep(run, tier, shard, n)
 	c12NewGame(run, shard, n)
 	return run.FinishWorker()
@@ -861,5 +864,75 @@ func c12RealSearches(run *vl.Run) {
 		ex.Explore()
 		run.AddStates(1)
 		run.SampleCat("real-search-session", map[string]interface{}{"program": strings.Join(sc, " | "), "schedules": ex.Executions})
+	}
+}
+
+// c12TerminalRoots: sessions in which a go on a mate / stalemate root (answered at once, without a move) is followed
+// immediately by the next go - all schedules within deviation bound 1, as for the command programs: every go gets
+// exactly one bestmove, the one after the terminal root a legal move of the new position.
+func c12TerminalRoots(run *vl.Run) {
+	mate, stale := "7k/6Q1/6K1/8/8/8/8/8 b - - 0 1", "7k/5Q2/6K1/8/8/8/8/8 b - - 0 1"
+	var scripts [][]string
+	for _, f := range []string{mate, stale} {
+		scripts = append(scripts,
+			[]string{"position fen " + f, "go depth 1", "<await>", "position fen " + lcFens["A"], "go depth 1", "<await>"},
+			[]string{"position fen " + f, "go depth 1", "<await>", "go depth 1", "<await>", "isready"},
+			[]string{"position fen " + f, "go movetime 65 depth 1", "<await>", "position fen " + lcFens["B"], "go infinite depth 1", "<idle>", "stop", "<await>"},
+		)
+	}
+	for _, sc := range scripts {
+		sc := sc
+		var sess *uciSession
+		body := func() {
+			config.Settings.Search.UseBook = false
+			config.Settings.Search.TTSize = 1
+			s := newSession()
+			sess = s
+			gos := 0
+			for _, c := range sc {
+				switch {
+				case c == "<await>":
+					s.await(gos)
+				case c == "<idle>":
+					sched.Sleep(20 * time.Millisecond)
+				default:
+					if strings.HasPrefix(c, "go") {
+						gos++
+						kind := "go-timed"
+						if strings.Contains(c, "infinite") {
+							kind = "go-infinite"
+						}
+						sched.Record("go", fmt.Sprintf("%d %s best=%d", gos, kind, s.best))
+					}
+					if c == "stop" {
+						sched.Record("release", fmt.Sprintf("%d best=%d", gos, s.best))
+					}
+					s.send(c)
+				}
+			}
+			s.send("isready")
+		}
+		ex := &sched.Explorer{Bound: 1, Body: body, MaxExec: 50000, Deadline: run.DeadlineTime()}
+		ex.Check = func(x *sched.Exec) {
+			run.AddTransitions(int64(x.Steps))
+			rep := map[string]interface{}{"kind": "schedule", "program": strings.Join(sc, " | "), "choices": x.Choices, "events": x.EventsString()}
+			for _, vd := range c12Oracle(nil, x, sess) {
+				if strings.HasPrefix(vd.key, "race:") {
+					continue
+				}
+				key := "terminal-root:" + vd.key
+				if strings.HasPrefix(vd.key, "bestmove-before-stop:leftover-timer") {
+					key = vd.key // the open finding, classified by c12Oracle's window / deviation condition
+				}
+				run.Violate(key, vd.what, rep)
+			}
+		}
+		ex.Explore()
+		run.AddEvals(int64(ex.Executions))
+		run.AddStates(1)
+		if ex.Capped {
+			run.Cap("terminal-root sessions capped")
+		}
+		run.SampleCat("terminal-root session", map[string]interface{}{"program": strings.Join(sc, " | "), "schedules": ex.Executions})
 	}
 }
